@@ -266,9 +266,10 @@ class StreamableHTTPTransport(Transport):
                                 await self._route_response(response_data)
                         except Exception as e:
                             logger.debug(f"Could not parse response: {e}")
-                            # For empty 202 responses, don't treat as error
-                            if response.status_code == 202:
-                                logger.debug(f"202 Accepted for {message_id}")
+                            # A 202 Accepted acknowledges a notification; its body is
+                            # irrelevant. A request still needs a terminal message.
+                            if response.status_code == 202 and message_id is None:
+                                logger.debug("202 Accepted for notification")
                                 return
                             error_response = {
                                 "jsonrpc": "2.0",
